@@ -171,7 +171,7 @@ func makeReplay(m *interp.Machine, prop string, u Unit, r *interp.PathResult, ci
 	parts := strings.SplitN(u.Harness, ":", 2)
 	db, _ := json.MarshalIndent(draws, "", " ")
 	h := hashOf(prop, u.Harness, check, string(db))
-	dir := filepath.Join(verifDir, "replays", prop, h)
+	dir := filepath.Join(replayDir, prop, h)
 	if err := os.MkdirAll(dir, 0o755); err != nil {
 		return nil, err
 	}
